@@ -211,8 +211,57 @@ def run_unrepresentable(ctx):
         ctx.evaluations += 1
 
 
+def run_narrow(ctx):
+    """exponent arrays of narrow integer dtypes reaching the constructors unchanged: exponent + KEY_OFFSET must not
+    wrap in the array's own dtype (every exponent here is representable, so no error is acceptable either)"""
+    limits = {"uint8": 255, "int8": 127, "uint16": 65535, "int16": 32767, "uint32": 70000, "int32": 70000, "int64": 70000, "uint64": 70000}
+    for dt, top in limits.items():
+        if top <= 255:
+            values = list(range(top + 1))
+        else:
+            values = sorted(set(list(range(0, 300, 7)) + list(range(max(top - 130, 0), top + 1)) + [top // 2]))
+            values = [v for v in values if representable(v)]
+        if ctx.quick and len(values) > 140:
+            values = values[::2] + values[-70:]
+        for e in values:
+            rows = numpy.array([[0, 0], [e, 2]], dtype=dt)
+            want = {(): (Fraction(1),), tuple(sorted(((0, e), (1, 2)) if e else ((1, 2),))): (Fraction(3),)}
+            routes = [
+                ("ndpoly(exponents=...)", lambda: _fill(numpoly.ndpoly(exponents=rows, shape=(), names=("q0", "q1"), dtype=int), [1, 3])),
+                ("from_attributes(retain_coefficients=True)", lambda: numpoly.ndpoly.from_attributes(rows, [numpy.array(1), numpy.array(3)], ("q0", "q1"), retain_coefficients=True)),
+                ("from_attributes under global retain_coefficients", lambda: _with_rc(lambda: numpoly.ndpoly.from_attributes(rows, [numpy.array(1), numpy.array(3)], ("q0", "q1")))),
+                ("from_attributes", lambda: numpoly.ndpoly.from_attributes(rows, [numpy.array(1), numpy.array(3)], ("q0", "q1"))),
+            ]
+            for label, f in routes:
+                case = {"kind": "narrow", "dtype": dt, "exponent": e, "route": label}
+                ctx.evaluations += 1
+                ctx.count(f"narrow.{dt}")
+                try:
+                    p = f()
+                    got = den_of_struct(poly_to_struct(p))
+                except Exception as err:  # noqa: BLE001
+                    ctx.fail(case, f"{label} with {dt} exponents [[0,0],[{e},2]] raised {type(err).__name__}: {str(err)[:100]}", ["narrow", f"dtype:{dt}", "raises"])
+                    break
+                if got != want:
+                    ctx.fail(case, f"{label} with {dt} exponents [[0,0],[{e},2]] stored {den_key(got)[:120]}", ["narrow", f"dtype:{dt}", "value"])
+                    break
+        ctx.nontrivial_add(("narrow", dt))
+
+
+def _fill(p, coefs):
+    for key, c in zip(p.keys, coefs):
+        p.values[key] = c
+    return p
+
+
+def _with_rc(f):
+    with numpoly.global_options(retain_coefficients=True):
+        return f()
+
+
 def run(ctx):
     ctx.rule = RULE
+    run_narrow(ctx)
     run_pairs(ctx)
     run_tuples(ctx)
     run_unrepresentable(ctx)
@@ -230,6 +279,10 @@ def search(ctx):
 
 def replay(ctx, case):
     n = len(ctx.failures)
+    if case["kind"] == "narrow":
+        run_narrow(ctx)
+        hits = [f["what"] for f in ctx.failures[n:] if f["case"]["dtype"] == case["dtype"]]
+        return hits[0] if hits else None
     if case["kind"] == "pair":
         a, b, c, d = case["a"], case["b"], case["c"], case["d"]
         try:
